@@ -43,6 +43,7 @@ struct ME
     uint8_t inE{0};     // expired and possibly still physically resident
     uint8_t  rej{0};     // C09 runs: a rejected insert hit this live entry since its last write
     uint64_t rejmask{0}; // ... at these history positions (not part of the state key)
+    uint8_t  upd{0};     // C09 runs: the latest successful write of this entry was an update (TTL restart is C09's too)
     int     wid{-1};
     int64_t deadline{INF_NS};
     int     uses{0};
@@ -141,6 +142,8 @@ struct Spec
                 s += "E";
             if (e.rej)
                 s += "r";
+            if (e.upd)
+                s += "U";
             if constexpr (has_ttl)
             {
                 snprintf(b, sizeof b, "d%lld", (long long)(e.deadline - m.now));
@@ -229,6 +232,7 @@ struct Spec
 
         auto write_new = [&](int k, int w, int64_t dl) {
             ME& e     = m.e[k];
+            e.upd     = 0;
             e.present = 1;
             e.inE     = 0;
             e.rej     = 0;
@@ -242,6 +246,7 @@ struct Spec
         };
         auto write_upd = [&](int k, int w, int64_t dl) {
             ME& e      = m.e[k];
+            e.upd      = kn.track_rej ? 1 : 0;
             e.present  = 1;
             e.inE      = 0;
             e.rej      = 0;
@@ -286,15 +291,17 @@ struct Spec
                         e.present  = 0;
                         e.inE      = 1;
                         expect[k]  = 0;
-                        phantag[k] = P(1) | P(4) | (e.rej ? P(9) : 0);
-                        rejtag[k]  = e.rej;
+                        // (an entry whose last write was an update and that is still served: the update did not
+                        //  restart the TTL from the update time - C09 says "restarting any TTL")
+                        phantag[k] = P(1) | P(4) | ((e.rej || e.upd) ? P(9) : 0);
+                        rejtag[k]  = e.rej && !e.upd;
                     }
                     else if (e.present)
                     {
                         // time passing is the only thing that happened: a live entry that disappears now
                         // expired early (C05); retention across operations is C03's
-                        losetag[k] = P(5) | (e.rej ? P(9) : 0);
-                        rejtag[k]  = e.rej;
+                        losetag[k] = P(5) | ((e.rej || e.upd) ? P(9) : 0);
+                        rejtag[k]  = e.rej && !e.upd;
                     }
                 }
                 break;
